@@ -359,7 +359,7 @@ def word(alpha, classes):
 # *Fills* are a covering scheme over the slots: three base assignments (all-first = simplest, all-second = decorated,
 # all-last), every single-slot deviation from each base, and (thorough) every pair of deviations from the first base.
 
-DIGIT_RUNS = ['1', '5', '0', '9', '10', '50', '05', '67', '36', '33', '84', '100', '400', '914', '1500', '42195', '00100', '1609', '0800', '726', '260', '123456', '000', '00005', '7260']
+DIGIT_RUNS = ['1', '5', '0', '9', '10', '50', '05', '67', '36', '33', '84', '100', '400', '914', '1500', '42195', '00100', '1609', '0800', '726', '260', '123456', '000', '00005', '7260', '0000001', '9' * 30]
 UNI_DIGITS = ['\u0663', '\uff11\uff12', '\u0967']          # Arabic-Indic 3, fullwidth 12, Devanagari 1
 ALL_SPACES = [chr(c) for c in (9, 10, 11, 12, 13, 28, 29, 30, 31, 0x85, 0xa0, 0x1680, 0x2000, 0x2003, 0x2009, 0x200a, 0x2028, 0x2029,
                                0x202f, 0x205f, 0x3000)]
